@@ -163,3 +163,116 @@ theorem zerosIn_eq_full_iff (m : Mem) (h : Nat) :
 
 end
 end LLFree
+
+namespace LLFree
+section
+variable {c : Cfg}
+
+theorem div_hf_mul_add (g : Geom) (hpos : 0 < g.hugeFrames) (h i : Nat) (hi : i < g.hugeFrames) :
+    (h * g.hugeFrames + i) / g.hugeFrames = h := by
+  rw [Nat.mul_comm, Nat.mul_add_div hpos, Nat.div_eq_of_lt hi, Nat.add_zero]
+
+/-- Re-establishing the invariant after a change confined to huge frame `h`. -/
+theorem LowerInv.of_local (hpos : 0 < c.geom.hugeFrames) {m : Mem} (inv : LowerInv c m) (m' : Mem) (h : Nat)
+    (hrs : m'.rows.size = m.rows.size) (hhs : m'.huge.size = m.huge.size)
+    (hentry : ∀ h', h' ≠ h → m'.hugeE h' = m.hugeE h')
+    (hbits : ∀ f, f / c.geom.hugeFrames ≠ h → m'.bit f = m.bit f)
+    (hh : h < c.nhuge)
+    (hmark : Huge.isHuge (m'.hugeE h) = true →
+      (h + 1) * c.geom.hugeFrames ≤ c.frames ∧ ∀ i, i < c.geom.hugeFrames → m'.bit (h * c.geom.hugeFrames + i) = false)
+    (hcount : Huge.isHuge (m'.hugeE h) = false → m'.hugeE h = zerosIn c.geom m' h)
+    (hout : ∀ f, c.frames ≤ f → f / c.geom.hugeFrames = h → m'.bit f = true) : LowerInv c m' := by
+  have hz : ∀ h', h' ≠ h → zerosIn c.geom m' h' = zerosIn c.geom m h' := by
+    intro h' hne
+    unfold zerosIn
+    apply countP_range_eq_of_eq
+    intro i hi
+    rw [hbits]
+    rw [div_hf_mul_add c.geom hpos h' i hi]; exact hne
+  constructor
+  · rw [hrs, inv.rowsSize]
+  · rw [hhs, inv.hugeSize]
+  · intro h' hh'
+    have : h' ≠ h := by omega
+    rw [hentry h' this]; exact inv.beyond h' hh'
+  · intro h' hh' hm'
+    by_cases e : h' = h
+    · subst e; exact hmark hm'
+    · rw [hentry h' e] at hm'
+      obtain ⟨h1, h2⟩ := inv.marker h' hh' hm'
+      refine ⟨h1, fun i hi => ?_⟩
+      rw [hbits]
+      · exact h2 i hi
+      · rw [div_hf_mul_add c.geom hpos h' i hi]; exact e
+  · intro h' hh' hm'
+    by_cases e : h' = h
+    · subst e; exact hcount hm'
+    · rw [hentry h' e] at hm' ⊢
+      rw [hz h' e]; exact inv.count h' hh' hm'
+  · intro f hf
+    by_cases e : f / c.geom.hugeFrames = h
+    · exact hout f hf e
+    · rw [hbits f e]; exact inv.outside f hf
+
+end
+end LLFree
+
+namespace LLFree
+section
+variable {c : Cfg}
+
+/-- a huge frame whose counter says "entirely free" lies inside the managed range -/
+theorem LowerInv.full_in_range (hpos : 0 < c.geom.hugeFrames) {m : Mem} (inv : LowerInv c m) (h : Nat) (hh : h < c.nhuge)
+    (hn : Huge.isHuge (m.hugeE h) = false) (hfull : m.hugeE h = c.geom.hugeFrames) :
+    (h + 1) * c.geom.hugeFrames ≤ c.frames ∧ ∀ i, i < c.geom.hugeFrames → m.bit (h * c.geom.hugeFrames + i) = false := by
+  have hz : zerosIn c.geom m h = c.geom.hugeFrames := by rw [← inv.count h hh hn]; exact hfull
+  have hall := (zerosIn_eq_full_iff m h).1 hz
+  refine ⟨?_, hall⟩
+  rw [Nat.add_mul, Nat.one_mul]
+  apply Nat.le_of_not_lt
+  intro hlt
+  -- the last frame of the huge frame would be outside and hence set
+  have := inv.outside (h * c.geom.hugeFrames + (c.geom.hugeFrames - 1)) (by omega)
+  rw [hall (c.geom.hugeFrames - 1) (by omega)] at this
+  cases this
+
+/-- Re-establishing the invariant after huge entries changed between "entirely free" and
+    "allocated as a whole" (bits untouched). -/
+theorem LowerInv.of_huge_change (hpos : 0 < c.geom.hugeFrames) (h16 : c.geom.hugeFrames < 65535)
+    {m : Mem} (inv : LowerInv c m) (m' : Mem)
+    (hbits : ∀ f, m'.bit f = m.bit f) (hrs : m'.rows.size = m.rows.size) (hhs : m'.huge.size = m.huge.size)
+    (hent : ∀ h, m'.hugeE h = m.hugeE h ∨
+      (h < c.nhuge ∧ Huge.isHuge (m.hugeE h) = true ∧ m'.hugeE h = c.geom.hugeFrames) ∨
+      (h < c.nhuge ∧ m.hugeE h = c.geom.hugeFrames ∧ m'.hugeE h = HugeMarker)) : LowerInv c m' := by
+  have hz : ∀ h, zerosIn c.geom m' h = zerosIn c.geom m h := by
+    intro h; unfold zerosIn; apply countP_range_eq_of_eq; intro i _; rw [hbits]
+  have hnotm : Huge.isHuge c.geom.hugeFrames = false := by
+    simp [Huge.isHuge, HugeMarker]; omega
+  constructor
+  · rw [hrs, inv.rowsSize]
+  · rw [hhs, inv.hugeSize]
+  · intro h hh
+    rcases hent h with e | ⟨h1, _⟩ | ⟨h1, _⟩
+    · rw [e]; exact inv.beyond h hh
+    · omega
+    · omega
+  · intro h hh hm
+    rcases hent h with e | ⟨_, _, e⟩ | ⟨_, hfull, _⟩
+    · rw [e] at hm
+      obtain ⟨h1, h2⟩ := inv.marker h hh hm
+      exact ⟨h1, fun i hi => by rw [hbits]; exact h2 i hi⟩
+    · rw [e, hnotm] at hm; cases hm
+    · have hn : Huge.isHuge (m.hugeE h) = false := by rw [hfull]; exact hnotm
+      obtain ⟨h1, h2⟩ := inv.full_in_range hpos h hh hn hfull
+      exact ⟨h1, fun i hi => by rw [hbits]; exact h2 i hi⟩
+  · intro h hh hm
+    rw [hz]
+    rcases hent h with e | ⟨_, hwas, e⟩ | ⟨_, _, e⟩
+    · rw [e] at hm ⊢; exact inv.count h hh hm
+    · rw [e]
+      exact ((zerosIn_eq_full_iff m h).2 (inv.marker h hh hwas).2).symm
+    · rw [e] at hm; simp [Huge.isHuge] at hm
+  · intro f hf; rw [hbits]; exact inv.outside f hf
+
+end
+end LLFree
